@@ -55,6 +55,7 @@ package bcl
 //@   ensures [C17] error_iff_diagnostic: ((result1 != nil) <==> g.diags > 0) && g.diags >= 0
 //@   ensures result0 != nil
 //@   ensures [C19] complete_when_ok: result1 == nil ==> result0.linePos != nil
+//@   ghost parsed_err = result1
 //
 //@ func Parse
 //@   requires no_nil_option: forall i int :: 0 <= i && i < len(opts) ==> opts[i] != nil
